@@ -247,6 +247,25 @@ def rein (c impl : List String) : Option Verdict := do
            else if ts != want then "the re-initialised interface does not advertise like a freshly initialised one (initial RA at once, the next MIN_DELAY_BETWEEN_RAS later)"
            else "" }
 
+/-- `reinlla tf nd (idx mac)* | nconn lla*`: the interface is re-established `nd - 1` times inside
+    one Run (link-state changes); dial `k` finds the interface with index `idx k` and hardware
+    address 02:00:00:00:00:`mac k` (`0`: none).  The first RA on every connection must carry the
+    source link-layer address of the interface AS DIALLED FOR THAT CONNECTION (C01: the hardware
+    address is system state, read at every (re)initialisation), and none when there is none. -/
+def reinlla (c impl : List String) : Option Verdict := do
+  let (_tf, dials) ← P.run (do
+    let a ← P.int
+    let l ← P.list (do let i ← P.nat; let m ← P.nat; pure (i, m))
+    pure (a, l)) c
+  let got ← P.run (P.list P.nat) impl
+  let want := dials.map (·.2)
+  let model := s!"{want.length}" ++ String.join (want.map fun m => s!" {m}")
+  pure { model := model, oracle := got == want,
+         nontrivial := decide (dials.length ≥ 2) && (dials.map (·.2)).eraseDups.length ≥ 2,
+         note := if got.length != want.length then "the interface was not re-established once per link-state change"
+           else if got != want then "an RA of a re-established interface carries a source link-layer address other than the interface's hardware address at that (re)initialisation (stale plugin state)"
+           else "" }
+
 /-- `tfl n lat | outcome errors sentUnicast`: `n` answers in flight together, all failing: every
     failed transmission is counted once, none is counted as sent, the task ends with an error -/
 def tfl (c impl : List String) : Option Verdict := do
